@@ -428,16 +428,22 @@ func (u *Unit) RecoverDefers(fn *ssa.Function) []*ssa.Defer {
 	return out
 }
 
+// callsRecover: fn calls recover() and never re-panics (a recover handler
+// that re-raises some panics — e.g. runtime.Error — does not contain them).
 func callsRecover(fn *ssa.Function, depth int) bool {
 	found := false
+	repanics := false
 	Instrs(fn, func(in ssa.Instruction) {
 		if c, ok := in.(*ssa.Call); ok {
 			if b, ok := c.Call.Value.(*ssa.Builtin); ok && b.Name() == "recover" {
 				found = true
 			}
 		}
+		if _, ok := in.(*ssa.Panic); ok {
+			repanics = true
+		}
 	})
-	return found
+	return found && !repanics
 }
 
 // CoveredByRecover reports whether instruction in executes under a deferred
